@@ -152,9 +152,12 @@ def getitem_slice(vc):
     # OK(c), instantiated at the parent indices the guard reads (element lo+k and the first element lo)
     install_extend_loop(vc, h, ka, pre_elem=lambda k: And(Implies(And(lo + k >= 0, lo + k < n), consistent(h, old.at(lo + k), old.at(0))),
                                                             Implies(And(lo >= 0, lo < n), consistent(h, old.at(lo), old.at(0)))))
+    w0 = len(h.writes)
     out = vc.call(CAD + '.__getitem__', c, sl)
     vc.cover('reachable')
     vc.ensure('C18/__getitem__/slice/exc/none', out.ok)
+    # the selected frames are shared with the parent: selecting must not write to any frame (start time, labels, data ...)
+    vc.ensure('C18/__getitem__/slice/frame/no-frame-field-written', len(h.writes) == w0, note=str(h.writes[w0:][:4]))
     if not out.ok:
         return
     res = out.value
@@ -237,9 +240,11 @@ def getitem_index_array(vc):
         key = [i0, i1] if form == 'list' else (i0, i1)
     pos = lambda k: sym_if(sel(k) < 0, sel(k) + n, sel(k))
     install_extend_loop(vc, h, ka, pre_elem=lambda k: And(valid(k), valid(0), consistent(h, old.at(pos(k)), old.at(0)), consistent(h, old.at(pos(0)), old.at(0))))
+    w0 = len(h.writes)
     out = vc.call(CAD + '.__getitem__', c, key)
     vc.cover('reachable')
     vc.ensure(f'C18/__getitem__/{form}/exc/none', out.ok)
+    vc.ensure(f'C18/__getitem__/{form}/frame/no-frame-field-written', len(h.writes) == w0, note=str(h.writes[w0:][:4]))
     if not out.ok:
         return
     rv = view_of(out.value)
